@@ -44,7 +44,15 @@ func c15Build(seed uint64) c15tree {
 	gxSalt = fmt.Sprintf("r%x", seed&0xffffff)
 	defer func() { gxSalt = "" }()
 	var gx *GX
-	for tries := 0; ; tries++ {
+	switch {
+	case seed%7 == 3:
+		// one of many Make types with nested pointers (resolved on first draw): with 20 of them most rounds of this
+		// family are the first use of their type in this process
+		gx = mkFresh[(seed/7)%uint64(len(mkFresh))]()
+	case seed%7 == 5:
+		gx = c15DeepCustom(r)
+	}
+	for tries := 0; gx == nil; tries++ {
 		gx = buildGX(r, gxOpts{depth: 3})
 		d := gx.Desc
 		lazy := strings.Contains(d, "Deferred") || strings.Contains(d, "RecTree") || strings.Contains(d, "Matching") || strings.Contains(d, "Custom") || strings.Contains(d, "Make[") || strings.Contains(d, "Filter")
@@ -61,9 +69,43 @@ func c15Build(seed uint64) c15tree {
 	return c15tree{gx, gen, ctors}
 }
 
-func c15Prop(tr c15tree, mode int, log *[]string, bad *string) func(t *rapid.T) {
+// c15DeepCustom is a chain of 30 nested Custom generators: every draw is 30 generator calls deep, so 8-16
+// concurrent checks keep a few hundred Custom calls of the SAME generators in flight at once.
+func c15DeepCustom(r *rng) *GX {
+	leafDesc := "IntRange(0, 1000)"
+	// ONE Custom generator that re-enters itself (a linked list, continued with probability 0.93: mean depth 14)
+	var node *rapid.Generator[any]
+	node = rapid.Custom(func(t *rapid.T) any {
+		v := rapid.IntRange(0, 1000).Draw(t, "v")
+		if rapid.IntRange(0, 99).Draw(t, "more") < 93 {
+			if next, ok := node.Draw(t, "next").(int); ok {
+				return (v + next) % 1001
+			}
+		}
+		return v
+	})
+	gen := node
+	for d := 0; d < 3; d++ {
+		inner := gen
+		gen = rapid.Custom(func(t *rapid.T) any { return inner.Draw(t, "d") })
+	}
+	desc := "Custom^3(recursive Custom list of " + leafDesc + ")"
+	return &GX{Desc: desc, Gen: gen, Check: func(v any) string {
+		if n, ok := v.(int); !ok || n < 0 || n > 1000 {
+			return fmt.Sprintf("%s returned %v", desc, v)
+		}
+		return ""
+	}}
+}
+
+func c15Prop(tr c15tree, mode int, prefix int, log *[]string, bad *string) func(t *rapid.T) {
 	sub := rapid.SliceOfN(tr.gen, 1, 2)
 	return func(t *rapid.T) {
+		// a different number of throw-away draws per check: with the same -rapid.seed the checks then take
+		// different paths through the shared tree at the same time
+		for i := 0; i < prefix; i++ {
+			rapid.Uint8().Draw(t, "prefix")
+		}
 		for i := 0; i < 3; i++ {
 			var v any
 			if mode == 2 && i == 0 {
@@ -101,7 +143,7 @@ func c15Run(t *testing.T, sc Scenario, res *Result) {
 		wg.Add(1)
 		go func(g int) {
 			defer wg.Done()
-			prop := c15Prop(tr, modes[g], &logs[g], &bads[g])
+			prop := c15Prop(tr, modes[g], g%5, &logs[g], &bads[g])
 			<-start
 			if modes[g] == 1 {
 				_ = tr.gen.String()
@@ -117,19 +159,20 @@ func c15Run(t *testing.T, sc Scenario, res *Result) {
 	res.nontrivial(tr.gx.Desc)
 	countCtors(res, "Deferred("+tr.gx.Desc)
 	// the same check alone: on the same (now warm) tree and on a freshly built equal tree
-	solo := func(tr c15tree, mode int) ([]string, string) {
+	solo := func(tr c15tree, mode int, prefix int) ([]string, string) {
 		var lg []string
 		var bad string
 		tb := newTB("C15solo")
-		runCheck(tb, c15Prop(tr, mode, &lg, &bad))
+		runCheck(tb, c15Prop(tr, mode, prefix, &lg, &bad))
 		return lg, bad
 	}
 	fresh := c15Build(sc.Seed)
 	refs := map[int][2][]string{}
-	for _, m := range []int{0, 2} {
-		a, _ := solo(tr, m)
-		b, _ := solo(fresh, m)
-		refs[m] = [2][]string{a, b}
+	for _, mp := range []int{0, 2, 10, 12, 20, 22, 30, 32, 40, 42} {
+		m, pf := mp%10, mp/10
+		a, _ := solo(tr, m, pf)
+		b, _ := solo(fresh, m, pf)
+		refs[mp] = [2][]string{a, b}
 		if strings.Join(a, "|") != strings.Join(b, "|") {
 			res.violate(sc, "c15/warm-vs-fresh", "a check run alone draws different values on the used tree than on a freshly built equal tree", map[string]any{"expr": tr.gx.Desc})
 		}
@@ -139,6 +182,7 @@ func c15Run(t *testing.T, sc Scenario, res *Result) {
 		if m == 1 {
 			m = 0
 		}
+		m += 10 * (g % 5)
 		res.count("draws_compared", int64(len(logs[g])))
 		if bads[g] != "" {
 			res.violate(sc, "c15/contract", "out-of-contract value under concurrent use: "+bads[g], map[string]any{"expr": tr.gx.Desc})
